@@ -40,12 +40,27 @@ func (c *Ctx) operandCase(n *Node, sp bool, M uint64, prelude string) {
 
 // otherContexts: FOR count, ORG/END argument, ;assert condition.
 func (c *Ctx) otherContexts(n *Node, sp bool) {
+	c.otherContextsM(n, sp, 8000)
+	if !sp {
+		// a small core: values that are non-zero multiples of the core size
+		// (7, 14, 21, 98, ...) must not be taken for zero
+		c.otherContextsM(n, sp, 7)
+	}
+}
+
+func (c *Ctx) otherContextsM(n *Node, sp bool, M uint64) {
 	e := n.Render(sp)
 	v, ok := n.Eval()
 	if ok && !ref.Fits32(v) {
 		return
 	}
-	cfg := cfgM(8000, g.ICWS94)
+	cfg := cfgM(M, g.ICWS94)
+	if M < 16 {
+		cfg.Length, cfg.Distance = 7, 0
+	}
+	if ok && v.Sign() != 0 && new(big.Int).Mod(v, new(big.Int).SetUint64(M)).Sign() == 0 {
+		c.Rep.Count("c07:nonzero-multiples-of-coresize-in-other-contexts")
+	}
 	// ;assert
 	k := &c07case{Kind: "assert", Cfg: cfg, Src: ";assert " + e + "\ndat 0, 0\n"}
 	if !ok || v.Sign() == 0 {
@@ -318,6 +333,13 @@ func (c *Ctx) RunC07(tier string) {
 					c.runC07(&c07case{Kind: "const", Cfg: cfg, Src: "dat " + mode + a + ", " + mode + b + "\n", Fields: [][2]uint64{{vals[a] % M, vals[b] % M}}})
 					c.runC07(&c07case{Kind: "const", Cfg: cfg, Src: "dat " + mode + a + "-1, " + mode + "2*" + b + "+1\n", Fields: [][2]uint64{{(vals[a] + M - 1) % M, (2*vals[b] + 1) % M}}})
 					c.runC07(&c07case{Kind: "const", Cfg: cfg, Src: "x equ " + a + "/2\ndat " + mode + "x, " + mode + "x%" + b + "\n", Fields: [][2]uint64{{(vals[a] / 2) % M, ((vals[a] / 2) % vals[b]) % M}}})
+					// constants as assert conditions: non-zero (also when a multiple of the core size), zero differences
+					c.runC07(&c07case{Kind: "assert", Cfg: cfg, Src: ";assert " + a + "\ndat " + mode + "0, " + mode + "0\n", Fields: [][2]uint64{{0, 0}}})
+					if vals[a]*vals[b] < 1<<31 { // values beyond 32 bits are outside the property
+						c.runC07(&c07case{Kind: "assert", Cfg: cfg, Src: ";assert " + a + "*" + b + "\ndat " + mode + "0, " + mode + "0\n", Fields: [][2]uint64{{0, 0}}})
+					}
+					c.runC07(&c07case{Kind: "assert", Cfg: cfg, Src: ";assert " + a + "-" + b + "\ndat " + mode + "0, " + mode + "0\n", Fields: [][2]uint64{{0, 0}}, WantErr: vals[a] == vals[b]})
+					c.runC07(&c07case{Kind: "assert", Cfg: cfg, Src: "k equ 2*" + a + "\n;assert k\ndat " + mode + "0, " + mode + "0\n", Fields: [][2]uint64{{0, 0}}})
 				}
 			}
 		}
